@@ -27,7 +27,8 @@ def dispatch (cmd : String) (args impl : List String) : Option (String × String
   | none => none
   | some pre =>
   match pre with
-  | "c01" => DrvC01.handle cmd args impl
+  -- c01.stream: the stream-level family of c04stream.go run under C01 (a lost event is passed by later commits)
+  | "c01" => if cmd = "c01.stream" then DrvC04.handle "c04.stream" args impl else DrvC01.handle cmd args impl
   | "c02" => DrvC02.handle cmd args impl
   | "c03" => DrvC03.handle cmd args impl
   | "c04" => DrvC04.handle cmd args impl
